@@ -436,7 +436,8 @@ def precedence_safe(e):
     if k == 'bin':
         chain = _flat(e)
         operands, ops = chain[0::2], chain[1::2]
-        if any(o[0] == 'un' for o in operands[:-1]) or any(o[0] == 'pct' for o in operands[:-2]):
+        if any(o[0] == 'un' for o in operands[:-1]) or any(o[0] == 'pct' for o in operands[:-2]) or \
+                any(o[0] == 'pct' and o[1][0] == 'pct' for o in operands[:-1]):
             return False
         if any(op in CMP for op in ops):
             if ops[0] not in CMP or any(op not in ARITH for op in ops[1:]):
@@ -944,10 +945,11 @@ def mask_texts(text):
 
 
 def swallow_feature(text):
-    """root-cause tag: a quoted text is followed later by an un-escaped ? or * and a further quote"""
-    for p, e in text_spans(text):
-        for q in range(e + 1, len(text)):
-            if text[q] == '"' and any(text[w] in '?*' and text[w - 1] != '~' for w in range(p + 1, q)):
+    """root-cause tag: a quote, later an un-escaped ? or *, later a quote that is not the partner of the first one"""
+    quotes = [i for i, ch in enumerate(text) if ch == '"']
+    for i, p in enumerate(quotes):
+        for q in quotes[i + 2:]:
+            if any(text[w] in '?*' and text[w - 1] != '~' for w in range(p + 1, q)):
                 return True
     return False
 
@@ -1171,7 +1173,7 @@ BASES = [
     '=MIN(8,4,2)', '=IFERROR(A2/A1,"e")', '=DATE(2024,2,29)', '=TODAY()', '=COLUMN()', '=YEAR(D1)', '=1.5+2.25', '=1e3+1',
     '=SUM(1,IF(A1>0,2,4),8)', '=((1+2))', '=IF(C1="ax","a,b","c;d")', '=IF(C3="b","it""s","n")', '=SEARCH("c","abcabc")',
     '=COUNTIFS(C1:C4,"a*",A1:A4,">1")', '=SUMIF(C1:C4,"a?",B1:B4)', '=IF(C1="ax",A1*2,"none")', '=IF(C3="b","q?","n")&"!"',
-    '=CONCATENATE("a*","b")', "=SUM('T 2'!A1,'T 2'!A1:A2)", '=COUNT(1,2,4)', '="a  b"&" c"', '="p\nq"&"\tr "',
+    '=CONCATENATE("a*","b")', "=SUM('T 2'!A1,'T 2'!A1:A2)", '=COUNT(1,2,4)', "=COUNT(A3*'T 2'!A1)+SUM('T 2'!A1:A2)", '="a  b"&" c"', '="p\nq"&"\tr "',
 ]
 APPEND1 = [')', '(', '+', '-', '*', '/', '&', '%', ',', ';', '=', '<', '>', '<>', '<=', '>=', '1', '2.5', '"x"', '""', '"', 'A1', 'B2',
            'A1:B2', 'TRUE', 'SUM', 'IF', 'SUM(1)', '()', '(1)', '%%', '!', ':', '.', "'", '#', '$', 'x', 'e1']
@@ -1211,7 +1213,7 @@ def mutation_jobs(tier, rng):
                 if thorough:
                     add(b + ' ' + a1 + ' ' + a2)
         if thorough:
-            for a in itertools.product(APPEND2[:8], repeat=3):
+            for a in itertools.product(APPEND2[:6], repeat=3):
                 add(b + ''.join(a))
         # delete / duplicate / swap at every position
         for i in range(1, len(toks)):
@@ -1230,7 +1232,7 @@ def mutation_jobs(tier, rng):
                 if thorough:
                     add(render(toks[:i] + [a] + toks[i:], ' '))
     # seeded multi-mutations
-    n_random = 30000 if tier == 'thorough' else 1000
+    n_random = 20000 if tier == 'thorough' else 1000
     alphabet = APPEND1 + ['3', '4', '"y"', 'B1', 'MAX', 'LEFT', 'AND', 'C1', '0.5']
     for _ in range(n_random):
         toks = tok_texts(rng.choice(BASES))
@@ -1258,9 +1260,9 @@ def check_mutations(tier, rng):
     return {'name': 'C05.monitor.token_mutations',
             'bound': f'{len(BASES)} well-formed base formulas (every token kind, {len(SPEC)}-function grammar, nested calls, % and signs, '
                      f'sheet prefixes, texts containing separators and doubled quotes) x [one trailing token from {len(APPEND1)} glued / after a blank; '
-                     f'two trailing tokens from {14 if tier == "thorough" else 6}^2' + (', three from 8^3' if tier == 'thorough' else '') +
+                     f'two trailing tokens from {14 if tier == "thorough" else 6}^2' + (', three from 6^3' if tier == 'thorough' else '') +
                      '; every single deletion, duplication, adjacent swap, proper prefix; every single insertion of one of '
-                     f'{len(APPEND1) if tier == "thorough" else 7} tokens at every position] + {30000 if tier == "thorough" else 1000} seeded 1..4-step mutations',
+                     f'{len(APPEND1) if tier == "thorough" else 7} tokens at every position] + {20000 if tier == "thorough" else 1000} seeded 1..4-step mutations',
             'rule': 'one evaluation = one distinct cell text; the reference lexer/parser reads the COMPLETE text: not a formula -> must raise '
                     'E2PyclParserException; formula -> exception or the value of the complete text (value clause only where the reference '
                     'evaluator defines it and precedence is not involved).  classes: ' + ', '.join(f'{k}:{v}' for k, v in sorted(st.items())),
@@ -1628,7 +1630,7 @@ def gen_text_expr(rng):
 
 
 def gen_jobs(tier, rng):
-    n = 30000 if tier == 'thorough' else 1500
+    n = 20000 if tier == 'thorough' else 1500
     seen, jobs = set(), []
     tails = [')', ' 1', '+', ',', '%%', ' A1', '(', ',1', ')+1', ' "x"', ';', '*', '&', '=', '""']
     while len(jobs) < n:
